@@ -5,8 +5,11 @@
    closed form: model/EvalSpec.v ([bwp] = balance with pending rewards, [tot_at] = its sum over
    a universe U of accounts seen through the overlay).  Transaction types modelled: payment
    (incl. CloseRemainderTo), key registration, asset config / transfer (opt-in, clawback,
-   close-out) / freeze, all with fee and rekey; application calls (and with them inner
-   transactions), heartbeats and state proofs are EXCLUDED from this version. *)
+   close-out) / freeze, all with fee and rekey, and application calls: create / opt-in /
+   close-out / clear state / delete around a program that is ANY finite script of ledger
+   operations (boxes, global / local state, inner payment / asset transactions) ending in
+   approve, reject or a failure.  Not modelled: inner application calls, UpdateApplication,
+   heartbeats, state proofs. *)
 From Coq Require Import NArith ZArith List Bool String.
 Import ListNotations.
 From Verif.lib Require Import Term.
@@ -105,6 +108,33 @@ Theorem C18_expire_nonparticipating_refuted :
     tot_at ex_P 4 [1; 2; 6] c' = tot_at ex_P 4 [1; 2; 6] ex_np_cow + 200.
 Proof. exact expire_nonparticipating_refuted. Qed.
 Print Assumptions C18_expire_nonparticipating_refuted.
+
+(* ---- application calls ---- *)
+(* an inner transaction: its fee goes from the application account to the fee sink, its body
+   moves money between accounts *)
+Theorem C18_inner_txn_conserves : forall E U app fee b c c' u,
+  env_ok E -> NoDup U -> inner_ok E U app (fee, b) -> wf_cow (e_lvl E) c ->
+  perform E app fee b c = (c', Ok u) ->
+  tot_at (e_P E) (e_lvl E) U c' = tot_at (e_P E) (e_lvl E) U c /\ wf_cow (e_lvl E) c'.
+Proof. exact inner_txn_conserves. Qed.
+Print Assumptions C18_inner_txn_conserves.
+
+(* StatefulEval of any program, whatever its verdict *)
+Theorem C18_program_conserves : forall E U app clear script acc c c' r,
+  env_ok E -> NoDup U -> Forall (op_ok E U app) script -> wf_cow (e_lvl E) c ->
+  stateful_eval E app clear script acc c = (c', r) ->
+  tot_at (e_P E) (e_lvl E) U c' = tot_at (e_P E) (e_lvl E) U c /\ wf_cow (e_lvl E) c'.
+Proof. exact program_conserves. Qed.
+Print Assumptions C18_program_conserves.
+
+Theorem C18_app_call_conserves : forall E U sender call ctr c c' u,
+  env_ok E -> NoDup U -> call_ok E U call -> wf_cow (e_lvl E) c ->
+  application_call E sender call ctr c = (c', Ok u) ->
+  tot_at (e_P E) (e_lvl E) U c' = tot_at (e_P E) (e_lvl E) U c /\ wf_cow (e_lvl E) c'.
+Proof. exact app_call_conserves. Qed.
+Print Assumptions C18_app_call_conserves.
+(* C18_txn_conserves / group_conserves / block_conserves / history_conserves above quantify over
+   [tx_ok] transactions, which include application calls ([call_ok]). *)
 
 (* the oracle evaluated on the implementation's observations is the statement *)
 Theorem C18_spec_ok_sound : forall k, spec_ok_c18 k = true ->
